@@ -129,3 +129,19 @@ def Facts.WF (f : Facts) : Bool :=
   resetsCover (f.handlerKeys ++ f.parentLinkKeys) f.glomResets
 
 end Glom.C20
+
+namespace Glom.C20.Re
+
+/-- the call in which no custom spec makes its inner call: a re-entering spec `reent l how inner
+    after` is then just a spec with a scope of its own that evaluates `after` -/
+def erase : RSpec → RSpec
+  | .pure v => .pure v
+  | .leaf l r => .leaf l r
+  | .sub l c => .sub l (erase c)
+  | .coal l c => .coal l (erase c)
+  | .both x y => .both (erase x) (erase y)
+  | .orElse x y => .orElse (erase x) (erase y)
+  | .andThen x y => .andThen (erase x) (erase y)
+  | .reent l _ _ after => .sub l (erase after)
+
+end Glom.C20.Re
